@@ -31,41 +31,72 @@ Proof. vm_compute. reflexivity. Qed.
 Lemma emfile_expected : accept_class errno_EMFILE = Expected.
 Proof. vm_compute. reflexivity. Qed.
 
+(* the EMFILE branch of the CURRENT source, run statement by statement from a valid spare descriptor:
+   one pending connection (if any) is taken and closed, the spare descriptor ends on /dev/null again,
+   no descriptor number is overwritten while open.  Everything below about EMFILE follows from this
+   computation on the regenerated [acceptor_valve_protocol]; dropping or reordering a statement of the
+   branch breaks it. *)
+Lemma valve_run_current p :
+  run_valve (mkValve IdleNull p 0 0) acceptor_valve_protocol =
+  mkValve IdleNull (pred p) (Nat.min 1 p) 0.
+Proof. destruct p as [|n]; reflexivity. Qed.
+
+(* ... and from an invalid one (not reachable: see spare_invariant) it is restored, too *)
+Lemma valve_run_current_closed p :
+  run_valve (mkValve IdleClosed p 0 0) acceptor_valve_protocol =
+  mkValve IdleNull (pred p) (Nat.min 1 p) 0.
+Proof. destruct p as [|n]; reflexivity. Qed.
+
+Lemma handleRead_emfile a : dead a = false -> idle_ok a = true ->
+  handleRead a (AErr errno_EMFILE) =
+  (mkAcc (pred (pendq a)) true (handed a) (valved a + Nat.min 1 (pendq a)) (open_fds a - 1 + 1) false,
+   repeat ValveClosed (Nat.min 1 (pendq a))).
+Proof.
+  intros Hd Hi. unfold handleRead. rewrite Hd, emfile_expected, Z.eqb_refl, valve_present, Hi.
+  cbn [andb]. rewrite valve_run_current. cbn [v_idle v_pend v_closed v_leaked]. rewrite Nat.add_0_r. reflexivity.
+Qed.
+
 Lemma emfile_closes_pending a n :
-  dead a = false -> pendq a = S n ->
+  dead a = false -> idle_ok a = true -> (0 < open_fds a)%nat -> pendq a = S n ->
   handleRead a (AErr errno_EMFILE) =
   (mkAcc n true (handed a) (S (valved a)) (open_fds a) false, [ValveClosed]).
 Proof.
-  intros Hd Hp. unfold handleRead. rewrite Hd, emfile_expected, Z.eqb_refl, valve_present, Hp.
-  reflexivity.
+  intros Hd Hi Ho Hp. rewrite (handleRead_emfile a Hd Hi), Hp. cbn [pred Nat.min repeat].
+  replace (open_fds a - 1 + 1)%nat with (open_fds a) by lia. rewrite Nat.add_1_r. reflexivity.
 Qed.
 
 Lemma emfile_nothing_pending a :
-  dead a = false -> pendq a = O -> handleRead a (AErr errno_EMFILE) = (a, []).
+  dead a = false -> idle_ok a = true -> (0 < open_fds a)%nat -> pendq a = O ->
+  handleRead a (AErr errno_EMFILE) = (a, []).
 Proof.
-  intros Hd Hp. unfold handleRead. rewrite Hd, emfile_expected, Z.eqb_refl, valve_present, Hp.
-  reflexivity.
+  intros Hd Hi Ho Hp. rewrite (handleRead_emfile a Hd Hi), Hp. cbn [pred Nat.min repeat].
+  replace (open_fds a - 1 + 1)%nat with (open_fds a) by lia. rewrite Nat.add_0_r.
+  destruct a; cbn in *; subst; reflexivity.
 Qed.
 
-Lemma starve_pendq a n : dead a = false ->
+(* the spare descriptor is valid (and counted) in every state the listener reaches *)
+Definition spare_ok (a : acc) : Prop := idle_ok a = true /\ (0 < open_fds a)%nat.
+
+Lemma starve_pendq a n : dead a = false -> spare_ok a ->
   pendq (starve a n) = (pendq a - n)%nat /\ dead (starve a n) = false /\
   handed (starve a n) = handed a /\ open_fds (starve a n) = open_fds a /\
+  idle_ok (starve a n) = true /\
   (valved (starve a n) = valved a + Nat.min n (pendq a))%nat.
 Proof.
-  revert a. induction n as [|n IH]; intros a Hd.
+  revert a. induction n as [|n IH]; intros a Hd [Hi Ho].
   - cbn [starve]. repeat split; try lia; assumption.
   - cbn [starve]. destruct (pendq a) as [|m] eqn:Hp.
-    + rewrite (emfile_nothing_pending a Hd Hp). cbn [fst].
-      destruct (IH a Hd) as (H1 & H2 & H3 & H4 & H5). rewrite Hp in *. repeat split; try assumption; lia.
-    + rewrite (emfile_closes_pending a m Hd Hp). cbn [fst].
-      destruct (IH (mkAcc m true (handed a) (S (valved a)) (open_fds a) false) eq_refl) as (H1 & H2 & H3 & H4 & H5).
+    + rewrite (emfile_nothing_pending a Hd Hi Ho Hp). cbn [fst].
+      destruct (IH a Hd (conj Hi Ho)) as (H1 & H2 & H3 & H4 & H5 & H6). rewrite Hp in *. repeat split; try assumption; lia.
+    + rewrite (emfile_closes_pending a m Hd Hi Ho Hp). cbn [fst].
+      destruct (IH (mkAcc m true (handed a) (S (valved a)) (open_fds a) false) eq_refl (conj eq_refl Ho)) as (H1 & H2 & H3 & H4 & H5 & H6).
       cbn [pendq handed open_fds valved] in *. repeat split; try assumption; lia.
 Qed.
 
 (* with n connections pending and the shortage persisting, n dispatches empty the queue, so a
    level-triggered listener stops being ready: the loop does not spin *)
-Lemma emfile_no_spin a : dead a = false -> pendq (starve a (pendq a)) = O.
-Proof. intros Hd. destruct (starve_pendq a (pendq a) Hd) as (H & _). lia. Qed.
+Lemma emfile_no_spin a : dead a = false -> spare_ok a -> pendq (starve a (pendq a)) = O.
+Proof. intros Hd Hs. destruct (starve_pendq a (pendq a) Hd Hs) as (H & _). lia. Qed.
 
 Lemma handleRead_no_abort_on_expected a r :
   dead a = false ->
@@ -74,61 +105,78 @@ Lemma handleRead_no_abort_on_expected a r :
 Proof.
   intros Hd Hr. unfold handleRead. rewrite Hd.
   assert (Hag : accept_class errno_EAGAIN = Expected) by (vm_compute; reflexivity).
+  assert (Hrep : forall n, ~ In Abort (repeat ValveClosed n)).
+  { intros n H. apply repeat_spec in H. discriminate. }
   destruct r as [|e].
   - destruct (pendq a) as [|m].
     + rewrite Hag. destruct (errno_EAGAIN =? errno_EMFILE) eqn:E; cbn; [|auto].
       vm_compute in E. discriminate.
     + cbn. split; [reflexivity|intros [H|[]]; discriminate].
   - rewrite Hr. destruct ((e =? errno_EMFILE) && acceptor_has_emfile_valve).
-    + destruct (pendq a); cbn; [auto|split; [reflexivity|intros [H|[]]; discriminate]].
+    + cbn [fst snd dead]. split; [reflexivity|apply Hrep].
     + cbn. auto.
 Qed.
 
+(* one step of the listener: connections conserved, the spare descriptor stays valid, the census
+   stays what it was *)
+Lemma astep_conserves a o : dead a = false -> spare_ok a ->
+  let a' := fst (astep a o) in
+  dead a' = false ->
+  spare_ok a' /\ open_fds a' = open_fds a /\
+  (pendq a' + handed a' + valved a' =
+   pendq a + handed a + valved a + match o with Connect => 1 | _ => 0 end)%nat.
+Proof.
+  intros Hd [Hi Ho] a' Hd'. subst a'. destruct o as [|r]; cbn [astep] in *.
+  - cbn [fst client_connects pendq handed valved open_fds idle_ok]. unfold spare_ok. cbn. repeat split; try assumption; lia.
+  - destruct r as [|e].
+    + unfold handleRead in *. rewrite Hd in *. destruct (pendq a) as [|m] eqn:Hp.
+      * destruct (accept_class errno_EAGAIN) eqn:Hc; [|cbn in Hd'; discriminate].
+        assert (E : (errno_EAGAIN =? errno_EMFILE) = false) by (vm_compute; reflexivity).
+        rewrite E. cbn [andb fst]. unfold spare_ok. repeat split; try assumption; lia.
+      * cbn [fst pendq handed valved open_fds idle_ok pred]. unfold spare_ok. cbn [idle_ok open_fds].
+        repeat split; try assumption; lia.
+    + destruct (Z.eqb_spec e errno_EMFILE) as [->|Hne].
+      * rewrite (handleRead_emfile a Hd Hi) in *. cbn [fst pendq handed valved open_fds idle_ok] in *.
+        unfold spare_ok. cbn [idle_ok open_fds]. repeat split; try lia;
+          destruct (pendq a); cbn [pred Nat.min]; lia.
+      * unfold handleRead in *. rewrite Hd in *. destruct (accept_class e); [|cbn in Hd'; discriminate].
+        apply Z.eqb_neq in Hne. rewrite Hne. cbn [andb fst]. unfold spare_ok. repeat split; try assumption; lia.
+Qed.
+
+Lemma dead_stays l : forall b, dead b = true -> dead (fst (arun b l)) = true.
+Proof.
+  induction l as [|x l IHl]; intros b Hb; [exact Hb|].
+  cbn [arun]. destruct (astep b x) as [b1 f1] eqn:Eb. destruct (arun b1 l) as [b2 f2] eqn:Eb2.
+  cbn [fst]. specialize (IHl b1). rewrite Eb2 in IHl. cbn [fst] in IHl. apply IHl.
+  destruct x; cbn [astep] in Eb.
+  - injection Eb as <- _. exact Hb.
+  - unfold handleRead in Eb. rewrite Hb in Eb. injection Eb as <- _. exact Hb.
+Qed.
+
 (* handing over exactly the pending connections: nothing is accepted that was not pending,
-   every pending connection ends handed over or closed, none twice *)
-Lemma conservation ops a : dead a = false ->
+   every pending connection ends handed over or closed, none twice; the spare descriptor is valid
+   after every history and the listener holds as many descriptors as before: none leaked.  (The two
+   descriptor conjuncts are computed through the regenerated EMFILE branch, see handleRead.) *)
+Lemma conservation ops a : dead a = false -> spare_ok a ->
   let a' := fst (arun a ops) in
   dead a' = false ->
   (pendq a' + handed a' + valved a' =
    pendq a + handed a + valved a + length (filter (fun o => match o with Connect => true | _ => false end) ops))%nat
-  /\ open_fds a' = open_fds a.
+  /\ open_fds a' = open_fds a /\ idle_ok a' = true.
 Proof.
-  revert a. induction ops as [|o ops IH]; intros a Hd a' Hd'.
-  - cbn in *. subst a'. split; lia.
+  revert a. induction ops as [|o ops IH]; intros a Hd Hs a' Hd'.
+  - cbn in *. subst a'. destruct Hs. repeat split; try lia; assumption.
   - subst a'. cbn [arun] in *. destruct (astep a o) as [a1 e1] eqn:E1.
     destruct (arun a1 ops) as [a2 e2] eqn:E2. cbn [fst] in *.
     assert (Hd1 : dead a1 = false).
     { destruct (dead a1) eqn:D; [|reflexivity].
-      (* once dead, always dead *)
-      assert (Hs : forall l b, dead b = true -> dead (fst (arun b l)) = true).
-      { induction l as [|x l IHl]; intros b Hb; [exact Hb|].
-        cbn [arun]. destruct (astep b x) as [b1 f1] eqn:Eb. destruct (arun b1 l) as [b2 f2] eqn:Eb2.
-        cbn [fst]. specialize (IHl b1). rewrite Eb2 in IHl. cbn [fst] in IHl. apply IHl.
-        destruct x; cbn [astep] in Eb.
-        - injection Eb as <- _. exact Hb.
-        - unfold handleRead in Eb. rewrite Hb in Eb. injection Eb as <- _. exact Hb. }
-      specialize (Hs ops a1 D). rewrite E2 in Hs. cbn [fst] in Hs. congruence. }
-    specialize (IH a1 Hd1). rewrite E2 in IH. cbn [fst] in IH. specialize (IH Hd').
-    destruct IH as [IH1 IH2]. destruct o as [|r]; cbn [astep filter length] in *.
-    + injection E1 as <- _. cbn [client_connects pendq handed valved open_fds] in *. split; lia.
-    + unfold handleRead in E1. rewrite Hd in E1.
-      destruct r as [|e].
-      * destruct (pendq a) as [|m] eqn:Hp.
-        -- destruct (accept_class errno_EAGAIN).
-           ++ destruct ((errno_EAGAIN =? errno_EMFILE) && acceptor_has_emfile_valve);
-                rewrite ?Hp in E1; injection E1 as <- _; split; lia.
-           ++ injection E1 as <- _. cbn in Hd1. discriminate.
-        -- injection E1 as <- _. cbn [pendq handed valved open_fds pred] in *. split; lia.
-      * destruct (accept_class e).
-        -- destruct ((e =? errno_EMFILE) && acceptor_has_emfile_valve).
-           ++ destruct (pendq a) as [|m] eqn:Hp; injection E1 as <- _;
-                cbn [pendq handed valved open_fds] in *; split; lia.
-           ++ injection E1 as <- _. split; lia.
-        -- injection E1 as <- _. cbn in Hd1. discriminate.
+      pose proof (dead_stays ops a1 D) as Hs'. rewrite E2 in Hs'. cbn [fst] in Hs'. congruence. }
+    pose proof (astep_conserves a o Hd Hs) as C. rewrite E1 in C. cbn [fst] in C.
+    destruct (C Hd1) as (S1 & O1 & P1).
+    specialize (IH a1 Hd1 S1). rewrite E2 in IH. cbn [fst] in IH. destruct (IH Hd') as (I1 & I2 & I3).
+    repeat split; [|congruence|exact I3].
+    destruct o; cbn [filter length]; lia.
 Qed.
-
-Lemma poll_fault_iterates e : poll_iteration (PErr e) = (0%nat, true).
-Proof. reflexivity. Qed.
 
 (* connect: the listed transient classes are not in the give-up group *)
 Lemma listed_connect_faults_classified :
@@ -140,54 +188,7 @@ Lemma listed_connect_faults_classified :
   zmem errno_ENETUNREACH connect_giveup = false.
 Proof. vm_compute. repeat split; reflexivity. Qed.
 
-(* ---- the poll call, from the regenerated guards of EPollPoller::poll / PollPoller::poll ------- *)
-(* what epoll_wait / poll returns for the model's poll_res: (return value, errno) *)
-Definition poll_ret (r : poll_res) : Z * Z :=
-  match r with PReady n => (Z.of_nat n, 0) | PErr e => (-1, e) end.
-
-(* Poller::poll re-assembled from its guards:
-     if (numEvents > 0) fillActiveChannels(numEvents, ..); else if (numEvents == 0) ; else { if (savedErrno != EINTR) LOG_SYSERR; }
-   result: (channels handed to the loop, the loop goes on, an error line is logged) *)
-Definition poll_src (some none log : Z -> bool) (r : poll_res) : nat * bool * bool :=
-  let '(n, err) := poll_ret r in
-  if some n then (Z.to_nat n, true, false)
-  else if none n then (0%nat, true, false)
-  else (0%nat, true, log err).
-
-Lemma poll_src_generic some none log :
-  (forall n, some (Z.of_nat n) = (0 <? n)%nat) -> some (-1) = false -> none (-1) = false ->
-  forall r, fst (poll_src some none log r) = poll_iteration r.
-Proof.
-  intros Hs He Hn [n|e]; unfold poll_src, poll_ret, poll_iteration.
-  - rewrite Hs. destruct n as [|n]; cbn [Nat.ltb Nat.leb].
-    + destruct (none (Z.of_nat 0)); reflexivity.
-    + rewrite Nat2Z.id. reflexivity.
-  - rewrite He, Hn. reflexivity.
-Qed.
-
-Lemma some_test_nat n : (Z.of_nat n >? 0) = (0 <? n)%nat.
-Proof.
-  destruct (Nat.ltb_spec 0 n) as [E|E].
-  - apply Z.gtb_lt. lia.
-  - assert (n = 0%nat) by lia. subst. reflexivity.
-Qed.
-
-(* both back-ends: an interrupted (or otherwise failed) poll call hands no channel to the loop and
-   the loop goes on; EINTR is not even logged; no branch of the error path fills channels, quits
-   or aborts *)
-Lemma poll_is_source :
-  (forall r, fst (poll_src epoll_poll_some_test epoll_poll_none_test epoll_poll_log_test r) = poll_iteration r) /\
-  (forall r, fst (poll_src ppoll_poll_some_test ppoll_poll_none_test ppoll_poll_log_test r) = poll_iteration r) /\
-  snd (poll_src epoll_poll_some_test epoll_poll_none_test epoll_poll_log_test (PErr errno_EINTR)) = false /\
-  snd (poll_src ppoll_poll_some_test ppoll_poll_none_test ppoll_poll_log_test (PErr errno_EINTR)) = false /\
-  epoll_poll_fills_only_when_some = true /\ epoll_poll_log_test_in_error_branch = true /\
-  ppoll_poll_fills_only_when_some = true /\ ppoll_poll_log_test_in_error_branch = true.
-Proof.
-  split; [|split].
-  - apply poll_src_generic; [intros n; apply some_test_nat|reflexivity|reflexivity].
-  - apply poll_src_generic; [intros n; apply some_test_nat|reflexivity|reflexivity].
-  - repeat split; reflexivity.
-Qed.
+(* the poll call and the loop: C11_ProofsLoop.v *)
 
 (* ---- connect faults: the socket of an attempt is closed exactly once or watched ---------------- *)
 Definition attempt_ok (t : nat * nat * nat) : bool :=
@@ -248,20 +249,19 @@ Qed.
 
 (* the EMFILE branch of the current source, run statement by statement on a listener whose spare
    descriptor is valid: the spare descriptor is valid again, nothing is leaked, exactly one pending
-   connection (if there is one) was taken and closed - which is what C11_Model.handleRead does *)
+   connection (if there is one) was taken and closed - and C11_Model.handleRead, which runs the same
+   statements, therefore leaves the census and the spare descriptor as they were *)
 Lemma valve_protocol_is_model a :
-  dead a = false -> idle_ok a = true ->
+  dead a = false -> idle_ok a = true -> (0 < open_fds a)%nat ->
   let v := run_valve (mkValve IdleNull (pendq a) 0 0) acceptor_valve_protocol in
-  v_idle v = IdleNull /\ v_leaked v = 0%nat /\
+  v_idle v = IdleNull /\ v_leaked v = 0%nat /\ (v_pend v + v_closed v = pendq a)%nat /\ (v_closed v <= 1)%nat /\
   fst (handleRead a (AErr errno_EMFILE)) =
     mkAcc (v_pend v) true (handed a) (valved a + v_closed v) (open_fds a) false.
 Proof.
-  intros Hd Hi. destruct a as [p i h vl o d]. cbn [dead idle_ok pendq handed valved open_fds] in *. subst.
-  destruct p as [|n].
-  - rewrite emfile_nothing_pending by reflexivity. vm_compute. rewrite Nat.add_0_r. auto.
-  - rewrite (emfile_closes_pending _ n) by reflexivity. cbn [fst].
-    unfold run_valve, acceptor_valve_protocol. cbn [fold_left valve_step Z.eqb Pos.eqb v_idle v_pend v_closed v_leaked].
-    cbn. rewrite Nat.add_1_r. auto.
+  intros Hd Hi Ho. cbv zeta. rewrite valve_run_current. cbn [v_idle v_leaked v_pend v_closed].
+  rewrite (handleRead_emfile a Hd Hi). cbn [fst].
+  replace (open_fds a - 1 + 1)%nat with (open_fds a) by lia.
+  repeat split; destruct (pendq a); cbn [pred Nat.min]; lia.
 Qed.
 
 Lemma connect_attempt_unfold : forall e,
